@@ -9,3 +9,6 @@ import TsVerif.C17.Props
 #print axioms TsVerif.C17.render_roundtrip_witness_truncated
 #print axioms TsVerif.C17.render_roundtrip_witness_final_invalid
 #print axioms TsVerif.C17.render_total_of_wellFormed
+#print axioms TsVerif.C17.merge_wellformed_partial
+#print axioms TsVerif.C17.normalize_whole
+#print axioms TsVerif.C17.render_roundtrip_whole_fixed
